@@ -14,6 +14,9 @@ contract("pyModeS.py_common.cprNL")(nl_spec.NL)
 
 # 1 NM of longitude expressed in degrees is at most LONSLACK[k]/60 in NL band k (k >= 2):
 # 1.02 / cos(transition(k) + 0.02 deg), rounded up (see DESIGN C03); band 1 is unconstrained
+PAIR_NM = 1.7
+
+
 def lon_slack(k):
     """rational upper bound of 1/cos(lat) over NL band k widened by 0.02 degree"""
     if k == 1:
@@ -54,7 +57,7 @@ def sample_pair(rng, fixed, surface=False):
     if surface:
         dlon = rng.uniform(-1, 1) * lon_reach_native(kn) / 225
     else:
-        dlon = rng.uniform(-1, 1) * (lon_slack(kn) / 60 if kn > 1 else 180)
+        dlon = rng.uniform(-1, 1) * (PAIR_NM * lon_slack(kn) / 60 if kn > 1 else 180)
     t1, t2 = sorted([rng.uniform(0, 2e9), rng.uniform(0, 2e9)])
     if t1 == t2:
         t2 = t1 + 1
@@ -82,7 +85,8 @@ def lon_reach_native(k):
          timeout={"quick": 60000, "thorough": 600000})
 def airborne_global_decode(lat_e, lon_e, dlat, dlon, k, dk, newest, swap, t_e, t_o, head_e, head_o, tc_e, tc_o,
                            mid_e, mid_o, par_e, par_o, case_e, case_o):
-    # two positions at most 3 NM apart in latitude (the statement needs 1 NM), 1 NM in longitude
+    # two positions at most 3 NM apart in latitude and PAIR_NM = 1.7 NM in longitude (the statement needs 1 NM; 1.7 NM
+    # is what C17's kinematic clause needs: 600 kt for the 10 s within which process_raw pairs two frames)
     k_o = k + dk
     assume(1 <= k_o and k_o <= 59)
     lat_o = lat_e + dlat
@@ -90,7 +94,7 @@ def airborne_global_decode(lat_e, lon_e, dlat, dlon, k, dk, newest, swap, t_e, t
     assume(-90 <= lat_o and lat_o <= 90)
     assume(-0.05 <= dlat and dlat <= 0.05)                     # 3 NM = 0.05 degree of latitude
     kn = k if newest == 0 else k_o
-    assume(-lon_slack(kn) / 60 <= dlon and dlon <= lon_slack(kn) / 60)
+    assume(-PAIR_NM * lon_slack(kn) / 60 <= dlon and dlon <= PAIR_NM * lon_slack(kn) / 60)
     assume((t_e > t_o) if newest == 0 else (t_o > t_e))
     # transmit side: DO-260B encoder
     yz_e, rlat_e = cpr_spec.encode_lat(lat_e, 0, False)
